@@ -29,6 +29,9 @@ CLAIMED["C18"]=("Bounded symbolic execution of the real ==, !=, <=> built-ins an
 CLAIMED["C13"]=("Bounded symbolic execution of the real Obj#try / Either*#fmap / A / val / err / or built-ins and the native Wrappable/Either sources through parsed programs: chains of 1..2 (thorough 1..3) steps in every combination of property call, literal call and chain-form operator call, with the failing step K and the error kind solver-chosen; on every feasible path z3 discharges that the wrapped chain calls exactly the steps the plain chain calls, never raises, and that A/val/err/val?/err?/or/abandon/catch/ignore all describe the plain chain's outcome (same error type and message, or the identical value).",
         TRUST,
         "SMT-decided bounded symbolic execution of go/ssa (z3, bit-vectors); symbolic fault position")
+CLAIMED["C14"]=("Bounded symbolic execution of the real evalIter / iterNew / iterNext / recur / guarded yield / Iter#_iter and the list-chain and A paths over iterators, through parsed programs: histories of 1..2 (thorough 1..3) solver-chosen operations over two iterators made from one literal whose limit, stride and start values are symbolic; on every feasible path z3 discharges agreement with a per-iterator state machine (value per next, StopIterErr exactly and persistently when the guard is false, chains visit exactly the remaining values without advancing the iterator, iterators never share progress).",
+        TRUST,
+        "SMT-decided bounded symbolic execution of go/ssa (z3, bit-vectors); symbolic operation history")
 NA={
 }
 DEFAULT_NA="check under construction in this session (engine exists; harness not yet registered)"
